@@ -5,6 +5,7 @@
 #include "sim.h"
 #include "simfd.h"
 #include "simtask.h"
+#include <errno.h>
 #include "libast_h.h"
 #include <string.h>
 #include <stdlib.h>
@@ -46,19 +47,19 @@ static void gen_faults(op_t *o, rng_t *r, int call, int maxn, int allow_eagain, 
         int k = (int)rng_below(r, 100), f;
         if (k < 30) f = FAULT(call, FO_FULL, 0);
         else if (k < 65) {
-            static const int lims[] = { 1, 2, 3, 7, 62, 100, 1000, 4095, 4096, 4097 };
-            f = FAULT(call, FO_SHORT, lims[rng_below(r, 10)]);
+            static const int lims[] = { 1, 2, 3, 7, 62, 100, 1000, 4094, 4095, 4096, 4097 };      /* (reads ask for 4096 bytes at a time: only limits below that shorten them) */
+            f = FAULT(call, FO_SHORT, lims[rng_below(r, call == FC_READ ? 9 : 11)]);
         } else if (k < 85) f = FAULT(call, FO_EINTR, 0);
         else if (k < 95 && allow_eagain) f = FAULT(call, FO_EAGAIN, 0);
         else if (hard && k >= 97) f = FAULT(call, FO_EIO, 0);
-        else f = FAULT(call, FO_SHORT, 1 + (int)rng_below(r, 5000));
+        else f = FAULT(call, FO_SHORT, 1 + (int)rng_below(r, call == FC_READ ? 4095 : 5000));
         op_fault(o, f);
     }
 }
 
 /* deterministic sweep: every read script over {FULL,SHORT,EINTR}^<=3 and write script over {FULL,SHORT,EINTR,EAGAIN}^<=3 */
-#define SWEEP_SIZES 4
-static const int sweep_sizes[SWEEP_SIZES] = { 5, 100, 4097, 9000 };
+#define SWEEP_SIZES 8
+static const int sweep_sizes[SWEEP_SIZES] = { 5, 100, 4096, 4097, 8192, 9000, 16385, 20000 };
 static int sweep_total(void) { return (3 + 9 + 27) * SWEEP_SIZES + (4 + 16 + 64) * SWEEP_SIZES; }
 static void gen_sweep(plan_t *p, int idx)
 {
@@ -82,15 +83,36 @@ static void gen_sweep(plan_t *p, int idx)
     plan_op(p, 1, "open", 1, 0L);
     if (!readside) plan_op(p, 1, "nbio", 2, 0L, 1L);           /* EAGAIN is only legal on a non-blocking sender */
     o = plan_op(p, 1, "send", 1, 0L); make_payload(o, 7, (size_t)size);
-    if (!readside) for (int i = 0; i < len; i++) op_fault(o, FAULT(call, script[i], script[i] == FO_SHORT ? (i == 0 ? 3 : 1000) : 0));
+    if (!readside) for (int i = 0; i < len; i++) op_fault(o, FAULT(call, script[i], script[i] == FO_SHORT ? (i == 0 ? 3 : size / 3 + 1) : 0));
     plan_op(p, 1, "del", 1, 0L);
     plan_op(p, 0, "accept", 2, 0L, 1L);
     o = plan_op(p, 0, "recv", 1, 1L);
-    if (readside) for (int i = 0; i < len; i++) op_fault(o, FAULT(call, script[i], script[i] == FO_SHORT ? (i == 0 ? 3 : 1000) : 0));
+    if (readside) for (int i = 0; i < len; i++) op_fault(o, FAULT(call, script[i], script[i] == FO_SHORT ? (i == 0 ? 3 : size / 3 + 1) : 0));
     plan_op(p, 0, "del", 1, 1L);
     plan_op(p, 0, "del", 1, 0L);
     /* server first until it listens, then the client completely, then the server */
     for (int i = 0; i < 12; i++) p->sched[p->nsched++] = 0;
+}
+
+static void gen_tail(plan_t *p, rng_t *r, int task, int hard)
+{
+    /* after the scripted life cycle: a few operations in no particular order -- reopen after close, send or receive on a closed
+       or never opened object, a copy of the listener, accept on a closed listener, delete in any order */
+    int n = rng_chance(r, 1, 3) ? rng_range(r, 1, 6) : 0;
+    for (int i = 0; i < n; i++) {
+        int s = (int)rng_below(r, NSLOT), d = (int)rng_below(r, NSLOT), k = (int)rng_below(r, 8);
+        op_t *o;
+        switch (k) {
+        case 0: plan_op(p, task, "open", 1, (long)s); break;
+        case 1: o = plan_op(p, task, "close", 1, (long)s); if (rng_chance(r, 1, 4)) op_fault(o, FAULT(FC_CLOSE, FO_EINTR, 0)); break;
+        case 2: if (d != s) plan_op(p, task, "dup", 2, (long)s, (long)d); break;
+        case 3: plan_op(p, task, "del", 1, (long)s); break;
+        case 4: o = plan_op(p, task, "send", 1, (long)s); make_payload(o, 200 + i, (size_t)payload_sizes[rng_below(r, 4)]); gen_faults(o, r, FC_WRITE, 3, 0, hard); break;
+        case 5: if (rng_chance(r, 1, 2)) { plan_op(p, task, "nbio", 2, (long)s, 1L); o = plan_op(p, task, "recv", 1, (long)s); gen_faults(o, r, FC_READ, 3, 1, hard); } break;
+        case 6: if (d != 0) plan_op(p, task, "accept", 2, 0L, (long)d); break;
+        default: plan_op(p, task, "checkio", 1, (long)s); break;
+        }
+    }
 }
 
 static void gen(plan_t *p, rng_t *r)
@@ -141,6 +163,8 @@ static void gen(plan_t *p, rng_t *r)
         for (int c = 0; c < nclients; c++) {
             int slot = 1 + c % 2, nrecv = rng_range(r, 0, 3);
             o = plan_op(p, 0, "accept", 2, 0L, (long)slot);
+            if (rng_chance(r, 1, 12)) op_fault(o, FAULT(FC_OPEN, FO_EMFILE, 0));        /* the dup() inside spif_socket_accept fails */
+            if (rng_chance(r, 1, 12)) op_fault(o, FAULT(FC_CLOSE, FO_EINTR, 0));        /* a close() inside it is interrupted */
             if (rng_chance(r, 1, 8)) {
                 static const int outs[] = { FO_EINTR, FO_EMFILE, FO_ECONNABORTED, FO_EAGAIN };
                 op_fault(o, FAULT(FC_ACCEPT, outs[rng_below(r, 4)], 0));
@@ -153,10 +177,12 @@ static void gen(plan_t *p, rng_t *r)
             }
             if (rng_chance(r, 1, 8)) { o = plan_op(p, 0, "send", 1, (long)slot); make_payload(o, 100 + c, (size_t)payload_sizes[rng_below(r, 8)]); gen_faults(o, r, FC_WRITE, 3, 0, 0); }
             if (rng_chance(r, 1, 6)) { o = plan_op(p, 0, "close", 1, (long)slot); if (rng_chance(r, 1, 3)) op_fault(o, FAULT(FC_CLOSE, FO_EINTR, 0)); }
-            if (rng_chance(r, 7, 8)) plan_op(p, 0, "del", 1, (long)slot);
+            if (rng_chance(r, 7, 8)) { o = plan_op(p, 0, "del", 1, (long)slot); if (rng_chance(r, 1, 8)) op_fault(o, FAULT(FC_CLOSE, FO_EINTR, 0)); }
         }
         if (rng_chance(r, 1, 6)) { o = plan_op(p, 0, "close", 1, 0L); if (rng_chance(r, 1, 2)) op_fault(o, FAULT(FC_CLOSE, FO_EINTR, 0)); }
-        for (int s = NSLOT - 1; s >= 0; s--) plan_op(p, 0, "del", 1, (long)s);
+        gen_tail(p, r, 0, hard);
+        if (rng_chance(r, 1, 4)) for (int s = 0; s < NSLOT; s++) plan_op(p, 0, "del", 1, (long)s);         /* the listener first */
+        else for (int s = NSLOT - 1; s >= 0; s--) plan_op(p, 0, "del", 1, (long)s);
     }
     /* clients */
     for (int c = 1; c <= nclients; c++) {
@@ -190,6 +216,7 @@ static void gen(plan_t *p, rng_t *r)
         }
         if (rng_chance(r, 1, 8)) { o = plan_op(p, c, "recv", 1, 0L); gen_faults(o, r, FC_READ, 3, nb, 0); }
         if (rng_chance(r, 1, 5)) { o = plan_op(p, c, "close", 1, 0L); if (rng_chance(r, 1, 3)) op_fault(o, FAULT(FC_CLOSE, FO_EINTR, 0)); if (rng_chance(r, 1, 3)) plan_op(p, c, "close", 1, 0L); }
+        gen_tail(p, r, c, hard);
         for (int s = NSLOT - 1; s >= 0; s--) plan_op(p, c, "del", 1, (long)s);
     }
     /* schedule: usually let the server reach listen() first, then seeded picks */
@@ -199,8 +226,19 @@ static void gen(plan_t *p, rng_t *r)
 }
 
 /* ------------------------------------------------------------------ oracles */
+static uint32_t slot_gen[TASK_MAX][NSLOT];
+static int slot_fd[TASK_MAX][NSLOT];
 static void census(int t, const char *when)
 {
+    /* descriptor numbers are recycled: an object must keep referring to the descriptor it was given, not to a later one
+       that happens to carry the same number */
+    for (int s = 0; s < NSLOT; s++) {
+        spif_socket_t so = sock[t][s];
+        if (!so || so->fd < 0) { slot_fd[t][s] = -1; slot_gen[t][s] = 0; continue; }
+        if (so->fd != slot_fd[t][s]) { slot_fd[t][s] = so->fd; slot_gen[t][s] = simfd_gen(t, so->fd); }
+        else if (simfd_is_open(t, so->fd) && slot_gen[t][s] && simfd_gen(t, so->fd) != slot_gen[t][s])
+            sim_fail("INVARIANT(stale-descriptor)", "%s: slot %d still holds number %d, which now names a descriptor opened later", when, s, so->fd);
+    }
     /* every live socket object of this task with fd >= 0 refers to an open descriptor; no two objects share one */
     for (int s = 0; s < NSLOT; s++) {
         spif_socket_t so = sock[t][s];
@@ -328,8 +366,15 @@ static void do_op(int t, op_t *o)
         cid = simfd_conn_id(t, fd);
         role = simfd_conn_role(t, fd);
         if (cid <= 0) return;                         /* recv on a listener / unconnected socket: outside the property */
+        simfd_last_read_t[task_current()] = 1;
         got = spif_socket_recv(so);
         if (!got) sim_fail("MISMATCH(recv-null)", "spif_socket_recv returned NULL");
+        /* "EINTR is transparent, short reads are continued": a receive may only stop because the descriptor reported end of file
+           or an error other than EINTR (EAGAIN on a non-blocking socket, EIO, ...) -- never after a read that returned data or EINTR */
+        { long lr = simfd_last_read_t[task_current()];
+          if (lr > 0) sim_fail("MISMATCH(recv-stopped-early)", "recv returned after a read() that delivered %ld bytes, without waiting for end of file or an error", lr);
+          if (lr == -EINTR) sim_fail("MISMATCH(recv-stopped-early)", "recv returned after a read() that failed with EINTR");
+          if (lr == 0) probe_hit("recv_ended_at_eof"); else probe_hit("recv_ended_on_error"); }
         len = (size_t)spif_str_get_len(got);
         tr_printf("t%d recv slot%d -> %zu bytes", t, s, len);
         if (!sa_readable(got, sizeof(*got))) sim_fail("INVARIANT(recv-object)", "returned string object is not a live block");
@@ -354,6 +399,9 @@ static void do_op(int t, op_t *o)
             if (simfd_is_open(t, fd) && rx != conn[cid].rcvd[role])
                 sim_fail("MISMATCH(recv-lost-bytes)", "kernel delivered %llu bytes to this socket so far but recv results total %zu",
                          (unsigned long long)rx, conn[cid].rcvd[role]);
+            /* end of file means the peer is gone and the queue is empty: everything it ever sent must have been handed out by now */
+            if (simfd_last_read_t[task_current()] == 0 && conn[cid].rcvd[role] != st->len)
+                sim_fail("MISMATCH(recv-incomplete)", "recv saw end of file after %zu bytes, the peer had sent %zu", conn[cid].rcvd[role], st->len);
             if (len >= 4096) probe_hit("recv_over_4096");
         }
         spif_str_del(got);
@@ -370,9 +418,16 @@ static void do_op(int t, op_t *o)
         if (sock[t][d]) probe_hit("dup_ok");
         if (sock[t][d] && sock[t][d]->fd < 0 && so->fd >= 0) probe_hit("dup_without_descriptor");      /* dup() itself failed: the copy has no descriptor */
     } else if (!strcmp(o->kind, "del")) {
+        int fd0, open0, was_open;
         if (!so) return;
+        fd0 = so->fd; open0 = simfd_open_count(t, 0); was_open = fd0 >= 0 && simfd_is_open(t, fd0);
         spif_socket_del(so);
         sock[t][s] = NULL;
+        /* deleting an object closes its own descriptor -- that one and no other */
+        if (was_open && simfd_is_open(t, fd0) && simfd_gen(t, fd0) == slot_gen[t][s])
+            sim_fail("INVARIANT(descriptor-leak)", "the deleted object's descriptor %d is still open", fd0);
+        if (simfd_open_count(t, 0) != open0 - (was_open ? 1 : 0))
+            sim_fail("INVARIANT(descriptor-census)", "deleting an object that held %s changed the number of open descriptors from %d to %d", was_open ? "one open descriptor" : "no open descriptor", open0, simfd_open_count(t, 0));
         tr_printf("t%d del slot%d", t, s);
         probe_hit("del");
         leak_check(t);
@@ -401,7 +456,7 @@ static void exec(const plan_t *p)
     for (int i = 0; i < p->nops; i++) if (p->ops[i].task < 0 || p->ops[i].task >= nt) sim_skip("bad-task");
     P = p;
     hard_faults_enabled = (int)plan_get(p, "hard", 0);
-    memset(sock, 0, sizeof(sock));
+    memset(sock, 0, sizeof(sock)); memset(slot_gen, 0, sizeof(slot_gen)); memset(slot_fd, 0, sizeof(slot_fd));
     for (int i = 0; i < MAXCONN; i++) { conn[i].stream[0].len = conn[i].stream[1].len = 0; conn[i].rcvd[0] = conn[i].rcvd[1] = 0; conn[i].broken[0] = conn[i].broken[1] = 0; }
     if (plan_get(p, "sweep", 0)) probe_hit("sweep_plan");
     rc = task_run_all(nt, task_body, NULL, p->sched, p->nsched);
